@@ -22,7 +22,7 @@ WRAPS = ("pthread_mutex_lock pthread_mutex_unlock pthread_cond_wait pthread_cond
          "nni_alloc nni_zalloc nni_free nni_plat_pipe_raise nni_plat_pipe_clear").split()
 
 # thorough tiers that need more than the default 1500 s wall clock to complete their bounds
-THOROUGH_DEADLINE_S = {"C05": 2700, "C10": 2700}
+THOROUGH_DEADLINE_S = {"C02": 3000, "C03": 2700, "C05": 2700, "C10": 3000, "C14": 2400}
 
 # property -> (harness source, engine kind, level, rule text)
 CHECKS = {}
